@@ -988,5 +988,6 @@ func main() {
 			{Name: "reader-faults", Body: readerFaultSection, Bound: -1},
 			{Name: "template-size-segments", Body: largeSegmentSection, Bound: -1},
 			{Name: "noncebased-custom", Body: nonceBasedSection, Bound: -1},
+			{Name: "interleaved-streams", Body: interleavedSection, Bound: -1},
 		})
 }
